@@ -50,7 +50,7 @@ type Msg struct {
 // PubSpec describes one publisher.
 type PubSpec struct {
 	Name   string
-	Client int // index into Clients, or -1 for the in-process Publisher API
+	Client int // index into Clients, -1 for the in-process Publisher API, -2 for a burst connection (see burst)
 	Msgs   []Msg
 	// Aliases (v5 connections): the publisher sends its topics through two topic aliases: the first use binds an
 	// alias, a repeated topic goes alias-only, another topic on the same alias re-binds it
@@ -214,6 +214,13 @@ func Generate(rng *rand.Rand, maxClients, maxMsgs int) Scenario {
 		ps.Aliases = rng.Intn(3) == 0
 		sc.Pubs = append(sc.Pubs, ps)
 	}
+	if rng.Intn(3) == 0 {
+		ps := PubSpec{Name: "pb", Client: -2}
+		for i, nm := 0, 3+rng.Intn(40); i < nm; i++ {
+			ps.Msgs = append(ps.Msgs, Msg{Topic: names[rng.Intn(len(names))], QoS: 0, Retain: rng.Intn(8) == 0})
+		}
+		sc.Pubs = append(sc.Pubs, ps)
+	}
 	return sc
 }
 
@@ -324,6 +331,17 @@ func richProps(tag string) *mqttx.Props {
 }
 
 // Result of running a scenario.
+// sentinelOf is the last message of a publisher. A burst publisher (Client -2) opens its own connection, writes all
+// its PUBLISH packets (QoS 0, so that the broker has nothing to write back), the sentinel and DISCONNECT in one go
+// and closes at once: everything had been received completely before the stream ended and must be delivered.
+func sentinelOf(ps PubSpec) Msg {
+	q := byte(1)
+	if ps.Client == -2 {
+		q = 0
+	}
+	return Msg{Topic: "sentinel/" + ps.Name, QoS: q}
+}
+
 type finding struct {
 	Sig, What string
 	Detail    map[string]any
@@ -431,8 +449,29 @@ func RunScenario(sc *Scenario, yield func(string)) (fs []finding, obs map[string
 		wg.Add(1)
 		go func() {
 			defer wg.Done()
-			msgs := append(append([]Msg{}, ps.Msgs...), Msg{Topic: "sentinel/" + ps.Name, QoS: 1})
+			msgs := append(append([]Msg{}, ps.Msgs...), sentinelOf(ps))
 			aliasTable := map[uint16]string{}
+			if ps.Client == -2 {
+				bc, err := wire.Dial("burst-"+ps.Name, b.Addr, mqttx.V311)
+				if err == nil {
+					_, err = bc.Connect(&mqttx.Packet{ClientID: "burst-" + ps.Name, CleanStart: true}, step)
+				}
+				if err != nil {
+					pmu.Lock()
+					add("publisher.burst_connect", err.Error(), nil)
+					pmu.Unlock()
+					return
+				}
+				var raw []byte
+				for seq, m := range msgs {
+					pb, _ := mqttx.Encode(&mqttx.Packet{Type: mqttx.PUBLISH, Topic: m.Topic, QoS: 0, Retain: m.Retain, Payload: []byte(fmt.Sprintf("%s/%d", ps.Name, seq))}, mqttx.V311)
+					raw = append(raw, pb...)
+				}
+				db, _ := mqttx.Encode(&mqttx.Packet{Type: mqttx.DISCONNECT}, mqttx.V311)
+				_ = bc.SendRaw(append(raw, db...), nil)
+				bc.Close()
+				return
+			}
 			for seq, m := range msgs {
 				payload := fmt.Sprintf("%s/%d", ps.Name, seq)
 				if ps.Client < 0 {
@@ -489,7 +528,7 @@ func RunScenario(sc *Scenario, yield func(string)) (fs []finding, obs map[string
 	}
 	for ci, cs := range sc.Clients {
 		for _, ps := range sc.Pubs {
-			want := len(expect(sc, cs, pubClientID(ps), Msg{Topic: "sentinel/" + ps.Name, QoS: 1}))
+			want := len(expect(sc, cs, pubClientID(ps), sentinelOf(ps)))
 			payload := fmt.Sprintf("%s/%d", ps.Name, len(ps.Msgs))
 			deadline := time.Now().Add(30 * time.Second)
 			for {
@@ -550,7 +589,7 @@ func RunScenario(sc *Scenario, yield func(string)) (fs []finding, obs map[string
 			mergeOrders = append(mergeOrders, strings.Join(merge, ""))
 		}
 		for _, ps := range sc.Pubs {
-			msgs := append(append([]Msg{}, ps.Msgs...), Msg{Topic: "sentinel/" + ps.Name, QoS: 1})
+			msgs := append(append([]Msg{}, ps.Msgs...), sentinelOf(ps))
 			for seq, m := range msgs {
 				payload := fmt.Sprintf("%s/%d", ps.Name, seq)
 				exp := expect(sc, cs, pubClientID(ps), m)
